@@ -212,14 +212,20 @@ fn gen_case(scenario: &str, index: usize, seed: u64) -> Case {
         "c18" | "c19" => {
             let cyclic = scenario == "c18" || rng.chance(1, 2);
             if cyclic {
+                // KNOWN FINDING (C13, /verif/corpus/C13/fallback_differs_after_new_revision.prog):
+                // single-threaded, a `cycle_result` function re-executed in a later revision
+                // against verified memos of the rest of its cycle returns its computed value
+                // instead of the fallback. Fallback components are therefore only generated for
+                // single-revision cases (unless `--fb-across-revisions`).
+                let n_rounds = if rng.chance(3, 10) { 2 } else { 1 };
                 let flavor = match rng.below(3) {
                     0 => CycFlavor::Fix,
+                    _ if n_rounds > 1 && !fb_across_revisions() => CycFlavor::Fix,
                     1 => CycFlavor::Fb,
                     _ => CycFlavor::Mixed,
                 };
                 prog = gen_cyclic(rng, flavor);
                 ins0 = gen_inputs(rng, prog.n_inputs);
-                let n_rounds = if rng.chance(3, 10) { 2 } else { 1 };
                 let mut ins = ins0.clone();
                 let mut rounds = Vec::new();
                 for r in 0..n_rounds {
@@ -249,7 +255,9 @@ fn gen_case(scenario: &str, index: usize, seed: u64) -> Case {
         }
         "c20" => {
             let cyclic = rng.chance(1, 2);
-            prog = if cyclic { gen_cyclic(rng, CycFlavor::Mixed) } else { gen_acyclic(rng, true) };
+            // every round ends with a write: fixpoint components only (see the C13 finding above)
+            let flavor = if fb_across_revisions() { CycFlavor::Mixed } else { CycFlavor::Fix };
+            prog = if cyclic { gen_cyclic(rng, flavor) } else { gen_acyclic(rng, true) };
             ins0 = gen_inputs(rng, prog.n_inputs);
             let n_rounds = 1 + rng.usize(3);
             let mut ins = ins0.clone();
@@ -1197,6 +1205,13 @@ const FAIL_ALWAYS: u8 = 2;
 /// a case is executing (panics are expected / reported through CONC-FAIL)
 static IN_CASE: AtomicBool = AtomicBool::new(false);
 
+static FB_ACROSS_REVISIONS: AtomicBool = AtomicBool::new(false);
+
+/// `--fb-across-revisions`: also generate fallback components in multi-revision cases.
+fn fb_across_revisions() -> bool {
+    FB_ACROSS_REVISIONS.load(Ordering::Relaxed)
+}
+
 /// `--strict`: known findings count as failures.
 fn strict() -> bool {
     STRICT.load(Ordering::Relaxed)
@@ -1694,6 +1709,7 @@ fn main() {
     };
     let cases = args.num("--cases", 100) as usize;
     STRICT.store(args.flag("--strict"), Ordering::Relaxed);
+    FB_ACROSS_REVISIONS.store(args.flag("--fb-across-revisions"), Ordering::Relaxed);
 
     // expected panics (cycle panics, injected panics) stay quiet; the message is kept for reports
     let default_hook = std::panic::take_hook();
